@@ -6,6 +6,7 @@
 ############################################################################
 
 import logging
+import math
 from collections import namedtuple
 from enum import Enum, unique
 from functools import partial
@@ -721,7 +722,9 @@ class LongReadAssigner:
         isoform_scores = []
         for isoform_id, match_events in read_matches.items():
             # logger.debug("* * Scoring inconsistencies for " + isoform_id + ": " + str(match_events))
-            penalty_score = 0.0
+            # the events come in genomic order, which a reverse-complemented input reverses; the scores are compared
+            # for equality below, so they are summed exactly (math.fsum does not depend on the order of the terms)
+            penalties = []
             for e in match_events:
                 event_count = 1
                 if e.isoform_region != SupplementaryMatchConstants.undefined_region and \
@@ -752,10 +755,11 @@ class LongReadAssigner:
                                     MatchEventSubtype.exon_elongation_left}:
                     event_cost = elongation_cost(self.params, e.event_info)
 
-                penalty_score +=  event_cost * event_count
+                penalties.append(event_cost * event_count)
                 # logger.debug("* * * Event " + str(e.event_type) + ", introns affected " + str(event_count) +
                 #             ", event cost " + str(event_cost) +
                 #             ". Updated penalty_score: " + str(penalty_score))
+            penalty_score = math.fsum(penalties)
             # logger.debug("* * Final penalty_score for isoform " + isoform_id + ": " + str(penalty_score))
             isoform_scores.append((isoform_id, penalty_score))
 
